@@ -98,7 +98,7 @@ func (e cliEv) String() string {
 	case "tick":
 		return "tick(" + []string{"at-deadline", "just-after-deadline", "far", "late: deadline+0.3 rto", "early: half-way to the deadline", "1 ns before the deadline"}[e.Arg] + ")"
 	case "garbage":
-		return "garbage(" + []string{"7 bytes", "bad cookie", "1025 bytes (truncated by the reader)", "attribute overrun", "valid header, body cut short"}[e.Arg] + ")"
+		return "garbage(" + []string{"7 bytes", "bad cookie", "1025 bytes (truncated by the reader)", "attribute overrun", "valid header, body cut short", "attribute 0x0030 overruns", "attribute 0x803F overruns"}[e.Arg] + ")"
 	case "failagent":
 		return "failagent(" + []string{"injected error", "ErrTransactionExists"}[e.Arg] + ")"
 	case "readerr":
@@ -606,6 +606,11 @@ func cliGarbage(kind int) []byte {
 	case 4: // a well-formed header that announces more body than the datagram carries (total still below the read buffer)
 		b := cliResponse(0, 97)
 		return b[:len(b)-8]
+	case 5, 6: // a valid header and one attribute that overruns the message, of a type the library has no name for
+		b := cliResponse(0, 96)
+		b[20], b[21] = []byte{0x00, 0x80}[kind-5], []byte{0x30, 0x3F}[kind-5]
+		b[23] = 0x7f // header, cookie and message length are right; the attribute announces more than the message holds
+		return b
 	default:
 		b := cliResponse(0, 98)
 		b[23] = 0x7f
@@ -706,6 +711,7 @@ func (w *cliWorld) msgFor(slot int) *stun.Message {
 		// fields assigned without encoding them: Raw is what goes out
 		m.Type = stun.MessageType{Method: stun.MethodAllocate, Class: stun.ClassIndication}
 		m.Length += 8
+		m.TransactionID[11] ^= 0xFF // (the client files the transaction under the field; what goes out is Raw)
 	}
 	w.msgs[slot] = m
 	return m
